@@ -7,6 +7,7 @@ order in which `generate_equations` (l.1637-1745) emits original trees.
 * `fill`            — `labels[m0] = t0[i,:]; labels[m1] = t1[j,:]; labels[m2] = t2[k,:]` (prefix order)
 * `shapeToTrees`    — loop nest i (nullary rows) → j (unary rows) → k (binary rows): the order of `all_tree`
 * `generate`        — shapes in `get_allowed_shapes` order, trees of each shape in that order
+* `Basis.WellFormed` — decidable side condition under which the output is duplicate-free (Props/C01c.lean)
 -/
 import ESRVerif.Model.Shape
 namespace ESR.Labeling
@@ -58,5 +59,26 @@ def generate (n : Nat) (b : Basis) : List (List String) :=
 def nTrees (n : Nat) (b : Basis) : Nat :=
   ((allowedShapes n).map fun s =>
     b.b0.length ^ countArity s 0 * b.b1.length ^ countArity s 1 * b.b2.length ^ countArity s 2).sum
+
+/-! ### side condition on a basis (not part of the Python; hypothesis of `ESR.C01.generate_nodup`) -/
+
+/-- `l` is `"a"` followed by at least one character, all of them decimal digits: the form of a renumbered
+parameter `a0, a1, …`. -/
+def isParamName (l : String) : Bool :=
+  match l.toList with
+  | 'a' :: d :: ds => (d :: ds).all Char.isDigit
+  | _ => false
+
+/-- Side condition on a basis under which the labelled output is duplicate-free (decidable; every shipped basis
+satisfies it, see `Props/C01c.lean`):
+the three classes are duplicate-free and pairwise disjoint, `"a"` occurs in no class other than the nullary
+one, and no label has the form `a<digits>` (so `a ↦ a0, a1, …` cannot collide with a basis label). -/
+def Basis.WellFormed (b : Basis) : Prop :=
+  b.b0.Nodup ∧ b.b1.Nodup ∧ b.b2.Nodup ∧
+  (∀ x ∈ b.b0, x ∉ b.b1 ∧ x ∉ b.b2) ∧ (∀ x ∈ b.b1, x ∉ b.b2) ∧
+  "a" ∉ b.b1 ∧ "a" ∉ b.b2 ∧
+  (∀ x ∈ b.b0 ++ b.b1 ++ b.b2, isParamName x = false)
+
+instance (b : Basis) : Decidable b.WellFormed := by unfold Basis.WellFormed; infer_instance
 
 end ESR.Labeling
